@@ -31,6 +31,8 @@ def setup(with_contracts: bool = True, advisory: bool = True, prescreen_tempo: b
     if with_contracts:
         contracts.install(advisory=advisory)
     gen.tempo_ok = tempo_ok if prescreen_tempo else None
+    if os.environ.get("VMON_QUIET_START"):
+        quiet_start()
     return cp
 
 
@@ -91,6 +93,73 @@ class werror:
         if self.cm is not None:
             self.cm.__exit__(*a)
         return False
+
+
+class quiet:
+    """`with quiet(k):` — the application has silenced the library's reports while this runs: logging.disable(WARNING) (k even) or
+    the package logger's level raised to ERROR (k odd). What is parsed must not depend on it, and nothing may break."""
+
+    def __init__(self, k: int = 0):
+        self.k = k
+
+    def __enter__(self):
+        import logging
+
+        self.lg = logging.getLogger("chartparse")
+        self.old = self.lg.level
+        if self.k % 2:
+            self.lg.setLevel(logging.ERROR)
+        else:
+            logging.disable(logging.WARNING)
+        return self
+
+    def __exit__(self, *a):
+        import logging
+
+        if self.k % 2:
+            self.lg.setLevel(self.old)
+        else:
+            logging.disable(logging.NOTSET)
+        return False
+
+
+QUIET_START_TEXT = """[Song]
+{
+  Resolution = 192
+  this line is not metadata
+}
+[SyncTrack]
+{
+  0 = TS 4
+  0 = B 120000
+  bulk import, sync garbage
+}
+[Events]
+{
+  0 = E "section a"
+  bulk import, events garbage
+}
+[Bogus]
+{
+  0 = N 0 0
+}
+[ExpertSingle]
+{
+  0 = N 0 0
+  bulk import, track garbage
+  96 = N 9 0
+}
+"""
+
+
+def quiet_start(rec=None) -> None:
+    """a process that begins with a quiet bulk import: the first unparsable lines and the first unhandled section this process
+    ever meets are met while the library's reports are silenced; reporting is switched back on afterwards"""
+    for k in (0, 1):
+        with quiet(k):
+            parse(QUIET_START_TEXT)
+    if rec is not None:
+        rec.cls("process_started_with_a_quiet_bulk_parse")
 
 
 def parse(text: str, want=None, newline_passthrough: bool = True) -> Outcome:
